@@ -229,6 +229,15 @@ Theorem C17_printed_fixed_is_rounded : forall q,
 Proof. exact printed_fixed_close. Qed.
 Print Assumptions C17_printed_fixed_is_rounded.
 
+(* ---- legacy src/hip_ra/HIP_RA.py: the part of its method that is the same volumetric computation ---- *)
+Theorem C17_legacy_common_part : forall W i,
+  let l := legacy_common W i in let o := hip_out W i in
+  nth 0 l 0 = o_volume o /\ nth 3 l 0 = o_enth_fluid o /\
+  (i_rff i == 1 -> nth 1 l 0 == o_vol_fluid o * i_fdens i) /\
+  (hip_err W i = None -> i_por i == 0 -> i_rrh i == 1 -> nth 2 l 0 == o_stored_rock o).
+Proof. exact legacy_common_part. Qed.
+Print Assumptions C17_legacy_common_part.
+
 (* ---- non-vacuity: the hypotheses above are satisfiable, on the shipped example (250 C / 60 C) ---- *)
 Definition example_input : hin :=
   {| i_Tres := 250; i_Trej := 60; i_por := 10; i_area := 55; i_thick := 1#4; i_life := 25;
@@ -269,3 +278,9 @@ Example C17_example_partial :
 Proof. repeat split; vm_compute; reflexivity. Qed.
 Example C17_example_mass : hip_err mass_witness_water mass_witness_input = None /\ ~ o_stored_rock (hip_out mass_witness_water mass_witness_input) == 0.
 Proof. split; [vm_compute; reflexivity | vm_compute; discriminate]. Qed.
+Example C17_example_legacy :
+  match run_legacy_common [250; 60; 10; 55; 1#4; 2840000000000#1; 861884000000#1; 1103; 315; 266#100; 79#100] with
+  | Vals (v :: m :: _) => v == 55#4 /\ 0 < m
+  | _ => False
+  end.
+Proof. vm_compute. split; reflexivity. Qed.
